@@ -26,6 +26,7 @@ DEEP = False
 PLACE = "E"
 STATS = {"relocated": 0, "passed_overlap": 0, "passed_large": 0, "deep_calls": 0}
 PROBLEMS = []        # canary damage seen by the deep relocation (strings)
+TOTAL = [0]          # native calls so far
 
 _SMALL = []
 _BIG = []
@@ -143,6 +144,7 @@ class _Fn(object):
 
     def __call__(self, *args):
         self.n += 1
+        TOTAL[0] += 1
         if DEEP:
             return _deep_call(self.f, args)
         return self.f(*args)
